@@ -8,7 +8,7 @@ pub use hashbrown::raw::{RawIter as HBIter, RawTable as HB};
 pub use hashbrown::verif as acct;
 
 #[cfg(not(feature = "counters"))]
-pub use hashbrown::raw::{DELETED, EMPTY, FULL, MAXB, W};
+pub use hashbrown::raw::{MAXB, W};
 
 /// The quota the property text names (8 normally; 4 in the crate's own `cfg(miri)` build).
 #[cfg(not(miri))]
